@@ -1,4 +1,5 @@
 import NrDaemon.Lemmas.Proc
+import NrDaemon.Lemmas.HarvestReqs
 import NrDaemon.Lemmas.Lifecycle
 import NrDaemon.Lemmas.AppKey
 import NrDaemon.Gen.AppKey
@@ -73,6 +74,16 @@ theorem C04_data_usage_params (s : PState) (gid : Nat) :
         have hmem := List.mem_of_find?_eq_some hg
         have hid := List.find?_some hg
         exact ⟨g, hmem, by simpa using hid, rfl, rfl, rfl, rfl⟩
+
+/-- **C04 (a harvest event keeps its own run id — live run or not).**  Whatever AppHarvest a harvest event carries (the
+run's current one, or that of a run that has been shut down and whose timer tick was still on its way), every request made
+for it — by the combined path or by any mixture of per-category branches — carries the run id OF THAT EVENT and the
+license key, collector host and request headers captured for it from the application; never the id of the application's
+current run. -/
+theorem C04_harvest_keeps_event_run_id (s : PState) (runId : String) (run : RunM) (app : AppM) (cfg : RunCfg) (mask : Nat) (a : HArgs) :
+    ∀ r ∈ (harvestByType s runId run app cfg mask a).2,
+      r.run = a.run ∧ r.license = a.license ∧ r.collector = a.collector ∧ r.hdr = a.hdr ∧ r.lang = a.lang :=
+  harvestByType_from s runId run app cfg mask a
 
 /-! ## Over all histories of the processor loop (`Lemmas/Lifecycle.lean`) -/
 
